@@ -47,6 +47,8 @@ def cases_(draw):
         c['repeat_to'] = draw(st.integers(1001, 1100))
     # a later step of the same flow edits the rows in place: the dump holds them as they were at the dumper's position
     c['follow'] = draw(st.integers(0, 3)) == 0
+    # a second file dumper of the OTHER format later in the same flow (step instances share nothing)
+    c['second_dumper'] = draw(st.integers(0, 4)) == 0
     return c
 
 
@@ -122,8 +124,15 @@ def check(case, ctx):
         classes.append('more-than-1000-rows')
     if case.get('follow'):
         classes.append('followed-by-in-place-edit')
+    extra_steps = [inplace_edit] if case.get('follow') else []
+    if case.get('second_dumper'):
+        other = dict(opts, format='json' if opts['format'] == 'csv' else 'csv', dumper='zip' if opts['dumper'] == 'path' else 'path',
+                     force_format=True)
+        step2, _loc2 = gen_dump.build_dumper(dataflows, other, ctx.tmpdir())
+        extra_steps.insert(0, step2)          # (before the editing step: the edited values need not fit the schema)
+        classes.append('second-dumper-of-the-other-format')
     try:
-        run_steps([step] + ([inplace_edit] if case.get('follow') else []), desc, tables)
+        run_steps([step] + extra_steps, desc, tables)
     except Exception as e:
         raise unexpected(e, 'dump')
     expected = []
